@@ -277,10 +277,9 @@ Definition check_node (P : ninfo) (Cs : list ninfo) : Z :=
         match links, Cs with
         | [L], [C] =>
           let r := check_pivots P L C in
-          if negb (r =? 0) then r
-          else (* the child of a pivot node is a leaf, a Delta-sum or a 3-sum *)
-            code_if (Nat.eqb (length (t_links C)) 0 || (t_type C =? T_DELTASUM) || (t_type C =? T_THREESUM) ||
-                     (t_type C =? T_YSUM)) 264
+          (* the type of the child is not restricted: neither the documentation nor the property does so, and re-completing
+             or refining a subtree legitimately produces e.g. a pivot node below a pivot node *)
+          r
         | _, _ => 263
         end
       else if ty =? T_SP then check_sp_node P links Cs
